@@ -9,11 +9,11 @@
     [check_cfg] is the executable model of check_cfg / check_bb / check_rows_match
     (CfgCheck.v) of the code after fix-1.patch; the specification side (Spec.v: [undef_use],
     [ty_conflict], [reach_nodef], [reach_env], [live_at]) talks about paths only. *)
-From Coq Require Import List Bool Arith Lia.
+From Coq Require Import ZArith List Bool Arith Lia.
 From V.C03 Require Import PyAst Builder.
 From V.C09 Require Import Analysis Spec.
 From V.C08 Require Import CfgCheck Spec ProofsBase ProofsCheck ProofsExact ProofsClosed ProofsTop
-  Bridge ProofsBridgeA ProofsBridgeB ProofsBridgeC.
+  Bridge ProofsBridgeA ProofsBridgeB ProofsBridgeC ProofsBridgeD ProofsBridgeE ProofsBridgeF.
 Import ListNotations.
 
 Notation facts_of g E0 glob s1 s2 := (analyze g (keys E0) glob s1 s2).
@@ -123,6 +123,47 @@ Proof.
 Qed.
 Print Assumptions syntactic_undef_rejected.
 
+(** conversely, every walk along real edges of the built graph, from the entry, spells a
+    syntactic path (item for item) *)
+Theorem cfg_walks_are_syntactic_paths : forall p rn g s items c',
+  cf_stmts p = true -> build p rn = BOk g s -> walk g (0, 0) items c' ->
+  exists o, spath_l p items o.
+Proof. intros p rn g s items c' F B W. exact (build_back p rn g s items c' F B W). Qed.
+Print Assumptions cfg_walks_are_syntactic_paths.
+
+(** [syntactic_undef_exact]: for the built graph, "some syntactic path reaches a read of x
+    and assigns x nowhere before" is EQUIVALENT to "some path along real edges of the event CFG
+    reaches a block that reads x first without passing an assignment to x" ([rreach] =
+    [reach_nodef] restricted to real successors).  Together with [undef_exact] this ties the
+    model's verdict to Python's syntactic paths for all live code; the only CFG paths without
+    a syntactic counterpart are those through dummy (never-taken) edges, i.e. dead code — the
+    known finding interpretation:dead-code-after-jump. *)
+Theorem syntactic_undef_exact : forall p rn g s x,
+  cf_stmts p = true -> build p rn = BOk g s ->
+  ((exists pre last o, spath_l p (pre ++ [last]) o /\ nodef x pre /\ reads_first x (ev_item last)) <->
+   (exists u, u < nb (ecfg_of g) /\ rreach (ecfg_of g) x u /\ reads_first x (evs (ecfg_of g) u))).
+Proof.
+  intros p rn g s x F B. split.
+  - intros (pre&last&o&X&N&R). exact (syntactic_path_to_real_cfg_path p rn g s x pre last o F B X N R).
+  - intros (u&_&H&R). exact (cfg_path_to_syntactic_path p rn g s x u F B H R).
+Qed.
+Print Assumptions syntactic_undef_exact.
+
+(** [undef_sound], syntactic form: when the reported use is reached along real edges, the
+    error is explained by a syntactic path of the source. *)
+Theorem syntactic_undef_sound : forall p rn g s E0 glob s1 s2 e k x u,
+  cf_stmts p = true -> build p rn = BOk g s -> wf_ecfg (ecfg_of g) ->
+  check_cfg (ecfg_of g) E0 glob s1 s2 = Rej e ->
+  In (k, x, u) (report_cands (ecfg_of g) (facts_of (ecfg_of g) E0 glob s1 s2) e) ->
+  rreach (ecfg_of g) x u ->
+  exists pre last o, spath_l p (pre ++ [last]) o /\ nodef x pre /\ reads_first x (ev_item last).
+Proof.
+  intros p rn g s E0 glob s1 s2 e k x u F B W H Hin Hr.
+  destruct (undef_sound (ecfg_of g) E0 glob s1 s2 e k x u W H Hin) as (_&(_&_&_&Rf)&_).
+  exact (cfg_path_to_syntactic_path p rn g s x u F B Hr Rf).
+Qed.
+Print Assumptions syntactic_undef_sound.
+
 (** * the hypotheses are satisfiable: three small programs (variables c=0 x=1 y=2; types bool=1 int=2 float=3) *)
 Lemma wf_by_cases : forall g, 0 < length g ->
   forallb (fun b => forallb (fun s => (s <? length g) && negb (s =? 0)) (flow_s g b)) (seq 0 (length g)) = true ->
@@ -179,4 +220,32 @@ Proof.
   assert (W : wf_ecfg ex_loop) by (apply wf_by_cases; [simpl; lia|vm_compute; reflexivity]).
   assert (H : exists c, check_cfg ex_loop [(0, 1)] [] [] [] = Ok c) by (eexists; vm_compute; reflexivity).
   split; auto. split; auto. apply (no_spurious ex_loop [(0, 1)] [] [] [] W). exact H.
+Qed.
+
+(** the bridge's hypotheses are satisfiable:  `if v0: v1 = 2` / `v1`  (v0 an input) *)
+Definition ex_src : stmts :=
+  SCons (SIf (EName (VU 0)) (SCons (SAssign (TName (VU 1)) (EConst (CInt 2%Z))) SNil) SNil)
+        (SCons (SExpr (EName (VU 1))) SNil).
+
+Example ex_bridge : exists g s,
+  cf_stmts ex_src = true /\ build ex_src true = BOk g s /\ wf_ecfg (ecfg_of g) /\
+  spath_l ex_src ([ICond (EName (VU 0))] ++ [IStmt (SExpr (EName (VU 1)))]) ONorm /\
+  (exists e, check_cfg (ecfg_of g) [(0, 1)] [] [] [] = Rej e /\ is_undef e).
+Proof.
+  destruct (build ex_src true) as [g s|] eqn:B; [|vm_compute in B; discriminate].
+  exists g, s.
+  assert (F : cf_stmts ex_src = true) by reflexivity.
+  assert (W : wf_ecfg (ecfg_of g)).
+  { vm_compute in B. inversion B; subst. apply wf_by_cases; [simpl; lia|vm_compute; reflexivity]. }
+  assert (X : spath_l ex_src ([ICond (EName (VU 0))] ++ [IStmt (SExpr (EName (VU 1)))]) ONorm).
+  { simpl. left. exists [ICond (EName (VU 0))], [IStmt (SExpr (EName (VU 1)))]. split; auto. split.
+    - right. exists []. split; auto.
+    - left. exists [IStmt (SExpr (EName (VU 1)))], []. split; auto. split; [left; auto|auto]. }
+  split; auto. split; auto. split; auto. split; auto.
+  apply (syntactic_undef_rejected ex_src true g s 2 [ICond (EName (VU 0))] (IStmt (SExpr (EName (VU 1)))) ONorm
+           [(0, 1)] [] [] [] F B W X).
+  - intros it [<-|[]]. simpl. apply uses_no_assign.
+  - simpl. auto.
+  - reflexivity.
+  - vm_compute in B. inversion B; subst. vm_compute. reflexivity.
 Qed.
